@@ -327,7 +327,7 @@ func genC16(g *prng.R) c16Case {
 func init() {
 	checks["c16"] = func(id string) int {
 		r := newRun(id, "exploration")
-		r.Rule = "client POSTs of Update (stored objects with random member sets against random partial updates with overlapping, disjoint and null-valued members), Delete, Add/Remove (1..3 objects, 1..3 targets owned / not owned / ordered / unordered / with duplicates), Like (the liked collection absent, holding other ids, or already holding some of the liked ids) and Block with 1..3 objects, and each with object or target absent or empty; the byte-level store after the request, the status and the deliveries are compared with a per-type reference model; non-trivial = accepted request whose default effect was compared, or a 400 case; distinct by scenario"
+		r.Rule = "client POSTs of Update (stored objects with random member sets against random partial updates with overlapping, disjoint and null-valued members), Delete, Add/Remove (1..3 objects, 1..3 targets owned / not owned / ordered / unordered / with duplicates), Like (the liked collection absent, holding other ids, or already holding some of the liked ids) and Block with 1..3 objects, and each with object or target absent or empty; the byte-level store after the request, the status and the deliveries are compared with a per-type reference model; Update members that are language maps, durations and instants; a Database that returns values without @context (one scenario in five); a stored member left with the value null counts as not removed; non-trivial = accepted request whose default effect was compared, or a 400 case; distinct by scenario"
 		r.Assumptions = []string{"nulls are placed in the activity's object, not on the activity", "virtual clock in UTC; 'deleted' is compared as an RFC 3339 string built by an independent formatter"}
 		judge := func(cs c16Case) {
 			sc := cs.Sc
